@@ -252,6 +252,31 @@ def run_mc(cfg_text, workdir, tag, workers=8, timeout=3000, module="MC.tla"):
     return res
 
 
+def run_live(cfg_text, workdir, tag, workers=6, timeout=3000):
+    """TLC liveness check (fairness, temporal properties). Returns dict(states, ok, violated)."""
+    stage_spec(workdir)
+    cfgp = os.path.join(workdir, f"{tag}.cfg")
+    with open(cfgp, "w") as f:
+        f.write(cfg_text)
+    md = os.path.join(workdir, f"md_{tag}")
+    t0 = time.time()
+    rc, out = sh(tlc_cmd(os.path.basename(cfgp), "MC.tla", md, workers, ("-Xmx10g",)), cwd=workdir, timeout=timeout)
+    shutil.rmtree(md, ignore_errors=True)
+    m = re.search(r"(\d+) states generated, (\d+) distinct states found", out)
+    res = {"name": tag, "wall_s": round(time.time() - t0, 1), "states": int(m.group(2)) if m else 0, "transitions": int(m.group(1)) if m else 0}
+    if "Temporal properties were violated" in out:
+        res["ok"] = False
+        res["violated"] = "temporal"
+        res["out_tail"] = out[-1500:]
+    elif "No error has been found" in out:
+        res["ok"] = True
+        res["violated"] = None
+    else:
+        m2 = re.search(r"(Error: .*?)(?:Error: The behavior|$)", out, re.S)
+        raise ToolError("TLC liveness check failed:\n" + (m2.group(1)[:2000] if m2 else out[-2000:]))
+    return res
+
+
 def gen_behaviours(cfg_text, workdir, tag, workers=6, timeout=1800, limit=None, seed=0):
     """Direction A: TLC enumerates every run-to-block behaviour of a small configuration (spec/Gen.tla) and prints
     {programs, decisions}; returns them as harness scenarios (plus TLC's state counts)."""
